@@ -523,6 +523,16 @@ def check_C11(ck):
     cases.append(("cancel", "pairprod %s %s %s %s" % (g1.A(g1.C.mul(P, a)), g2.A(Qp), g1.A(g1.C.neg(g1.C.mul(P, a))), g2.A(Qp)))); exp.append(O.show_f12(O.F12_ONE))
     b = rng.randrange(1, R)
     cases.append(("cancel", "pairmulti %s;%s %s;%s" % (g1.A(g1.C.mul(g1.gen, a)), g1.A(g1.C.mul(g1.gen, b)), g2.A(g2.C.mul(g2.gen, b)), g2.A(g2.C.mul(g2.gen, R - a))))); exp.append(O.show_f12(O.F12_ONE))
+    # the pair list handed to miller_loop as lazy iterators (filter / skip_while / chain: inexact size hints)
+    for ln in (1, 3, 4):
+        idx = [rng.randrange(len(pool)) for _ in range(ln)]
+        prod = O.F12_ONE
+        for i_ in idx:
+            if i_ in val:
+                prod = O.f12_mul(prod, val[i_])
+        if all(i_ in val for i_ in idx):
+            cases.append(("miller/lazy-iterators/len%d" % ln, "millerlazy %s %s" % (";".join(g1.A(pool[i_][0]) for i_ in idx), ";".join(g2.A(pool[i_][1]) for i_ in idx)))); exp.append(O.show_f12(prod))
+    cases.append(("miller/lazy-iterators/with-identity", "millerlazy %s;inf;%s %s;%s;inf" % (g1.A(pool[0][0]), g1.A(pool[1][0]), g2.A(pool[0][1]), g2.A(pool[1][1])))); exp.append(O.show_f12(val[0]) if 0 in val else None)
     # the product against the independent textbook ate pairing (not against the implementation's own single pairings)
     if len(pool) >= 2:
         (Pa, Qa), (Pb, Qb) = pool[0], pool[1]
@@ -587,6 +597,10 @@ def check_C12(ck):
         els.append(("single-slot-%d" % slot, O.f12_unflat(l)))
     els.append(("sparse-014", ((F2.rand(rng), F2.rand(rng), (0, 0)), ((0, 0), F2.rand(rng), (0, 0)))))
     els += mult_special_f12(rng, 1 if not thorough else 5)
+    for k_ in mont_specials()[:3 if not thorough else 8]:          # a coefficient whose raw Montgomery limbs are 1, 2, 3 ...
+        for slot in (range(6) if k_ == mont_specials()[0] or thorough else (0, 3)):
+            cs = [F2.rand(rng) for _ in range(6)]; cs[slot] = (k_, 0)
+            els.append(("mont-special-coefficient", ((cs[0], cs[1], cs[2]), (cs[3], cs[4], cs[5]))))
     zp = zero_pattern_f12(rng)
     zres = ck.run([("fe/zero-pattern", "finalexp %s" % O.show_f12(a)) for (_, a) in zp])
     for (mask, a), (impl, _) in rng.sample(list(zip(zp, zres)), 6 if not thorough else 30):
@@ -1153,6 +1167,15 @@ def mult_special_f12(rng, n=2):
     return out
 
 
+def mont_specials(p=Q, nlimbs=6):
+    """field elements whose MONTGOMERY representation (a * 2^(64 nlimbs) mod p, the raw limbs the library stores) is a
+    structured limb pattern: raw 1 (= R^-1, which a comparison of raw limbs with `Repr::from(1)` takes for the field's one),
+    raw 2, a single top limb, all-ones limbs, raw p-1 ...  (limb_specials covers the canonical representation)"""
+    Rinv = pow(1 << (64 * nlimbs), -1, p)
+    raws = [1, 2, 3, (1 << 64) - 1, 1 << 64, (1 << 64) + 1, 1 << (64 * (nlimbs - 1)), ((1 << 64) - 1) << 64, p - 1, p - 2, (p - 1) // 2]
+    return [(r * Rinv) % p for r in raws]
+
+
 def zero_pattern_f12(rng, patterns=None):
     """Fq12 elements for every zero/non-zero pattern of the six Fq2 coefficients (63 non-zero patterns)"""
     out = []
@@ -1218,11 +1241,34 @@ def check_C09(ck):
         sparse = ((c0, c1, (0, 0)), ((0, 0), c4, (0, 0)))
         cases.append(("fq12/mulby014", "fq12 mulby014 %s %s %s %s" % (S12(a), _f2s(c0), _f2s(c1), _f2s(c4)))); exp.append(S12(O.f12_mul(a, sparse)))
     gen12 = r12()
+    gen6x = r6()
     for (mask, a) in zero_pattern_f12(rng):
         cases.append(("fq12/zero-pattern/mul", "fq12 mul %s %s" % (S12(a), S12(gen12)))); exp.append(S12(O.f12_mul(a, gen12)))
         cases.append(("fq12/zero-pattern/mul-rev", "fq12 mul %s %s" % (S12(gen12), S12(a)))); exp.append(S12(O.f12_mul(gen12, a)))
         cases.append(("fq12/zero-pattern/sq", "fq12 sq %s" % S12(a))); exp.append(S12(O.f12_mul(a, a)))
         cases.append(("fq12/zero-pattern/inv", "fq12 inv %s" % S12(a))); exp.append("?inv12")
+    # coefficients / norms whose Montgomery representation is special (raw limbs = 1 is NOT the field's one)
+    ms = mont_specials()
+    for k_ in ms[:6]:
+        for a2 in ((k_, 0), (0, k_), (k_, k_), (k_, 1)):
+            cases.append(("fq2/mont-special/inv", "fq2 inv %s" % _f2s(a2))); exp.append(_f2s(F2.inv(a2)))
+            cases.append(("fq2/mont-special/mul", "fq2 mul %s %s" % (_f2s(sp2[-1]), _f2s(a2)))); exp.append(_f2s(F2.mul(sp2[-1], a2)))
+            cases.append(("fq2/mont-special/mul-left", "fq2 mul %s %s" % (_f2s(a2), _f2s(sp2[-2])))); exp.append(_f2s(F2.mul(a2, sp2[-2])))
+            cases.append(("fq2/mont-special/sq", "fq2 sq %s" % _f2s(a2))); exp.append(_f2s(F2.mul(a2, a2)))
+        for b_ in (1, 2, 3, 5):
+            a_ = O.fsqrt((k_ - b_ * b_) % Q)
+            if a_ is not None:                     # norm a^2 + b^2 has the special Montgomery form
+                cases.append(("fq2/norm-mont-special/inv", "fq2 inv %s" % _f2s((a_, b_)))); exp.append(_f2s(F2.inv((a_, b_))))
+                cases.append(("fq2/norm-mont-special/norm", "fq2 norm %s" % _f2s((a_, b_)))); exp.append("%x" % k_)
+                break
+        for slot in range(6):
+            cs = [r2() for _ in range(6)]; cs[slot] = (k_, 0)
+            a12 = ((cs[0], cs[1], cs[2]), (cs[3], cs[4], cs[5]))
+            cases.append(("fq12/mont-special-coefficient/inv", "fq12 inv %s" % S12(a12))); exp.append("?inv12")
+            if slot < 3:
+                a6 = tuple(cs[:3])
+                cases.append(("fq6/mont-special-coefficient/inv", "fq6 inv %s" % S6(a6))); exp.append("?inv6")
+                cases.append(("fq6/mont-special-coefficient/mul", "fq6 mul %s %s" % (S6(gen6x), S6(a6)))); exp.append(S6(O.f6_mul(gen6x, a6)))
     for (cl, a) in mult_special_f12(rng, 2 if not thorough else 6):
         cases.append(("fq12/%s/inv" % cl, "fq12 inv %s" % S12(a))); exp.append("?inv12")
         cases.append(("fq12/%s/sq" % cl, "fq12 sq %s" % S12(a))); exp.append(S12(O.f12_mul(a, a)))
@@ -1475,6 +1521,12 @@ def check_C10(ck):
         for ps in ([None], [nz[0], None, nz[1]], [None, nz[0]], [nz[1], nz[0], None], [None, None]):
             ks = [rng.randrange(1, 2 ** 255) for _ in ps]
             add_case("soppre/with-identity", "soppre", ps, ks, g.A(msm(ps, ks)))
+        # mismatched lengths in the table-driven variant: a PREFIX of the points with the full scalar list and the full table buffer
+        for (n_, tot) in ((0, 3), (1, 3), (2, 4), (3, 4), (4, 4)):
+            ps = [rng.choice(nz) for _ in range(tot)]
+            ks = [rng.randrange(1, 2 ** 255) for _ in range(tot)]
+            pl = ";".join(g.A(P_) for P_ in ps) or "-"; kl = ";".join("%x" % k_ for k_ in ks) or "-"
+            cases.append(("soppre/prefix-of-points-full-tables", "%s soppre_prefix %x %s %s" % (tag, n_, pl, kl))); exp.append(g.A(msm(ps[:n_], ks[:n_])))
         res = ck.run(cases)
         for c, (impl, _), want in zip(cases, res, exp):
             ck.expect(impl == want, "msm:" + c[0].split("/")[0], c[1], impl, want, "sum [k_i]P_i over the first min entries")
@@ -1519,11 +1571,12 @@ def check_C13(ck):
                 cases.append(("hash/" + hn, "hash %s %s" % (hn, hx(m)))); exp.append(hashlib.new(pyn, m).hexdigest())
             else:
                 cases.append(("hash/" + hn, "hash %s %s %x" % (hn, hx(m), olen))); exp.append(hashlib.new(pyn, m).hexdigest(olen))
-    for x in ("xmd256", "xmd512", "xof128", "xof256"):
-        b = 32 if x == "xmd256" else 64
-        lens = [0, 1, 31, 32, 33, 64, 65, 127, 128, 129, 255 * b - 1, 255 * b] if x.startswith("xmd") else [0, 1, 32, 136, 137, 168, 169, 500, 8160, 65535]
+    # "any Merkle-Damgard hash": SHA-224 and SHA-384 have block size != 2 x digest size (64/28, 128/48)
+    for x in ("xmd256", "xmd512", "xof128", "xof256", "xmd224", "xmd384"):
+        b = {"xmd256": 32, "xmd224": 28, "xmd384": 48}.get(x, 64)
+        lens = [0, 1, b - 1, b, b + 1, 2 * b, 2 * b + 1, 127, 128, 129, 255 * b - 1, 255 * b] if x.startswith("xmd") else [0, 1, 32, 136, 137, 168, 169, 500, 8160, 65535]
         ex = O.expander(x)
-        for d in _dsts_all(rng):                        # every tag length 0..255 with every expander
+        for d in (_dsts_all(rng) if x not in ("xmd224", "xmd384") or thorough else _dsts(rng)):       # every tag length 0..255 with every expander
             m = rng.choice(msgs)
             l = rng.choice([32, 64, 96, 128])
             cases.append(("expand/%s/dstlen%d" % (x, len(d)), "expand %s %s %s %x" % (x, hx(m), hx(d), l))); exp.append(hx(ex(m, d, l)))
@@ -1535,7 +1588,7 @@ def check_C13(ck):
             for l in (255 * b + 1, 256 * b, 65535):
                 cases.append(("expand/%s/too-long" % x, "expand %s %s %s %x" % (x, hx(msgs[1]), hx(dsts[2]), l))); exp.append("PANIC")
         for (fld, m_, L, p) in (("fq", 1, 64, Q), ("fr", 1, 48, R), ("fq2", 2, 64, Q)):
-            for cnt in ([0, 1, 2, 3, 5, 9] if x in ("xmd256", "xof128") or thorough else [2]):
+            for cnt in ([0, 1, 2, 3, 5, 9] if x in ("xmd256", "xof128") or thorough else ([1, 2] if x in ("xmd224", "xmd384") else [2])):
                 m, d = rng.choice(msgs), rng.choice(dsts)
                 want = O.hash_to_field(x, m, d, cnt, m_, L, p)
                 if want is None:
@@ -1630,8 +1683,26 @@ def check_C14(ck):
                 us += [s, (-s) % Q]
         else:
             us += [(rng.randrange(Q), 0), (0, rng.randrange(Q))]
+        # inputs whose SSWU output has a special Jacobian Z = -A'(Z_sswu^2 u^4 + Z_sswu u^2): Z = 1, -1, 2, -2, 2^64 ...
+        # (a fast path of a later stage keyed on Z or Z^2 shows here); solve the quadratic in t = u^2
+        zden = []
+        A_ = g.CP.a
+        for z0 in (K.one, K.neg(K.one), K.from_int(2), K.neg(K.from_int(2)), K.from_int(1 << 64), K.from_int(4)) + ((((0, 1)), ((0, Q - 1))) if K is F2 else ()):
+            # Z_sswu^2 t^2 + Z_sswu t + z0/A' = 0
+            c_ = K.mul(z0, K.inv(A_))
+            disc = K.sub(K.one, K.mul(K.from_int(4), c_))
+            sd = K.sqrt(disc) if K is F2 else (O.fsqrt(disc))
+            if sd is None:
+                continue
+            for sgn_ in (sd, K.neg(sd)):
+                t_ = K.mul(K.add(K.neg(K.one), sgn_), K.inv(K.mul(K.from_int(2), Z)))
+                u_ = K.sqrt(t_) if K is F2 else O.fsqrt(t_)
+                if u_ is not None:
+                    zden += [u_, K.neg(u_)]
+        us += zden
         singles = [[u] for u in us]
         pairs = map_input_pairs(g, tag, us[:6], rng)
+        pairs += [("special-sswu-denominator", [u_, K.rand(rng)]) for u_ in zden[:6]] + [("special-sswu-denominator", [K.rand(rng), u_]) for u_ in zden[:4]]
         if tag == "g1" and s is not None:
             pairs += [("zero-and-exceptional", [K.zero, s]), ("zero-and-exceptional", [K.zero, (-s) % Q]), ("exceptional-both-signs", [s, (-s) % Q]),
                       ("exceptional-twice", [s, s])]
